@@ -73,13 +73,13 @@ open PycModel.FullExpr PycModel.StmtSkel PycModel.View in
 /-- **Linear recursion budget for statements and full expressions.** For every statement of the
 fragment of `Proofs/StmtSkel.lean` - blocks of any length, `if`/`else`/`while`/`do`/`switch` nested to
 any depth, expressions with every operator, call and subscript of `Proofs/FullExpr.lean` repeated and
-nested to any size - fuel `13 * (number of tokens)` suffices for the parser model to finish with the
-right tree. -/
-theorem statement_fuel_linear (st : S) (hwf : WFS st) (s : PState) (rest : List Tk)
+nested to any size - nested to any size, declarations inside blocks and `for` clauses - fuel `17 * (number of tokens)`
+suffices for the parser model to finish with the right tree. -/
+theorem statement_fuel_linear (st : S) (hwf : WFS env.ty st) (s : PState) (rest : List Tk)
     (hs : SeesT env s (st.flat ++ rest))
     (hel : st.openIf = true → ∀ k v r, rest = (k, v) :: r → k ≠ "ELSE") :
-    ∃ s', run (13 * st.ntoks) .statement s = .ok (st.val s.idx) s' :=
-  let ⟨s', h, _⟩ := parse_stmt st hwf s rest hs hel (13 * st.ntoks) (by have := S.fuel_linear st; omega)
+    ∃ s', run (17 * st.ntoks) .statement s = .ok (st.val s.idx) s' :=
+  let ⟨s', h, _⟩ := parse_stmt st hwf s rest hs hel (17 * st.ntoks) (by have := TuFuel.S.fuel_linear st hwf; omega)
   ⟨s', h⟩
 
 open PycModel.Climb in
@@ -101,7 +101,7 @@ translation unit of the fragment of `C01.wellformed_translation_units_are_accept
 model run with fuel `17 × tokens + 1` (fuel bounds recursion depth plus loop iterations of every
 production) returns the tree - no nesting and no repetition of declarations, parameters,
 statements or expressions makes the needed depth grow faster than the input. -/
-theorem translation_unit_fuel_linear (l : List Ext) (hw : ∀ e ∈ l, WFExt e) :
+theorem translation_unit_fuel_linear (l : List Ext) (hw : ∀ e ∈ l, WFExt (fun _ => false) e) :
     (parseCore (17 * (extsFlat l).length + 1) ((extsFlat l).map (fun t => SEv.tok t.1 t.2) ++ [.eof])).1 =
       .ast (mk .FileAST none [.list (extsVals 0 l)]) := by
   rw [extsFlat_length]
